@@ -1431,6 +1431,7 @@ fn one(report: &mut Report, case: Case, nontrivial: bool, ordinal: u64) {
 
 fn run(ctx: &Ctx, report: &mut Report) {
     crate::util::silence_panics();
+    super::live::run_decline_family(ctx, report, "C10");
     let mut ordinal = 0u64;
     let depth = if ctx.quick() { 4 } else { 5 };
     // (A)
@@ -1595,6 +1596,9 @@ fn run(ctx: &Ctx, report: &mut Report) {
 
 fn replay(case: &Value) -> anyhow::Result<(bool, String)> {
     crate::util::silence_panics();
+    if let Some(r) = super::live::replay_decline(case, "C10")? {
+        return Ok(r);
+    }
     let case: Case = serde_json::from_value(case.clone())?;
     match catch(|| run_case(&case)) {
         Err(p) => Ok((true, format!("panic: {p}"))),
